@@ -106,20 +106,23 @@ Section World.
 
   (* the recipient-presence flag of delivered and refunded inputs is truthful by construction *)
   Definition dst_ok (op : wop) : Prop :=
-    match op with OCall sh _ i => i_dst i = (shof (i_rcpt i) =? sh)%N | _ => True end.
+    match op with
+    | OCall sh fn i => is_transfer_fn fn = true -> i_dst i = (shof (i_rcpt i) =? sh)%N
+    | _ => True
+    end.
   Lemma op_exec_dst_truthful w op sh fn i : op_exec w op = Some (sh, fn, i) -> dst_ok op ->
-    i_dst i = (shof (i_rcpt i) =? sh)%N.
+    is_transfer_fn fn = true -> i_dst i = (shof (i_rcpt i) =? sh)%N.
   Proof.
     destruct op as [sh0 fn0 i0|id gas|id gas|id gas]; cbn [op_exec dst_ok].
     - destruct (sh0 <? wc_nshards c)%N; [|discriminate]. intros [= -> -> ->] H. exact H.
     - destruct (find_msg (inflight w) id) as [m|]; [|discriminate]. cbv zeta.
-      destruct (shof (m_dest m) <? wc_nshards c)%N; [|discriminate]. intros [= <- <- <-] _.
+      destruct (shof (m_dest m) <? wc_nshards c)%N; [|discriminate]. intros [= <- <- <-] _ _.
       cbn [deliver_input i_dst i_rcpt]. symmetry. apply N.eqb_refl.
     - destruct (find_msg (inflight w) id) as [m|]; [|discriminate]. cbv zeta.
-      destruct (shof (m_dest m) <? wc_nshards c)%N; [|discriminate]. intros [= <- <- <-] _.
+      destruct (shof (m_dest m) <? wc_nshards c)%N; [|discriminate]. intros [= <- <- <-] _ _.
       cbn [deliver_input i_dst i_rcpt]. symmetry. apply N.eqb_refl.
     - destruct (find_msg (inflight w) id) as [m|]; [|discriminate]. cbv zeta.
-      destruct (nat_in id (failed w) && (shof (m_sender m) <? wc_nshards c)%N)%bool; [|discriminate]. intros [= <- <- <-] _.
+      destruct (nat_in id (failed w) && (shof (m_sender m) <? wc_nshards c)%N)%bool; [|discriminate]. intros [= <- <- <-] _ _.
       cbn [refund_input i_dst i_rcpt]. symmetry. apply N.eqb_refl.
   Qed.
 
@@ -365,7 +368,7 @@ Section World.
       apply N.eqb_eq in E0. subst sh1. rewrite (exec_counter_frame E Hc _ _ _ _ _ Hex a tok (Hn eq_refl)). reflexivity.
     Qed.
 
-    Lemma step_dst : i_dst i = (shof (i_rcpt i) =? sh)%N.
+    Lemma step_dst : is_transfer_fn fn = true -> i_dst i = (shof (i_rcpt i) =? sh)%N.
     Proof. destruct Hok as (Hd & _). eapply op_exec_dst_truthful; eauto. Qed.
 
     (* messages: a step that is not a hand-over for tok neither adds nor removes a hand-over message for tok *)
